@@ -32,8 +32,9 @@ namespace {
 
       Stage(int nn, int t) : nnames{nn}, nt{t}
       {
-         const ipr::Type* builtins[] = { &lex.int_type(), &lex.char_type(), &lex.bool_type(), &lex.double_type(),
-            &lex.long_type(), &lex.float_type(), &lex.short_type(), &lex.uint_type(), &lex.void_type(), &lex.wchar_t_type() };
+         // (the second and fourth are the types of user-defined types: an alias of that type is initialised by a class / a namespace)
+         const ipr::Type* builtins[] = { &lex.int_type(), &lex.class_type(), &lex.char_type(), &lex.namespace_type(), &lex.bool_type(),
+            &lex.double_type(), &lex.long_type(), &lex.float_type(), &lex.short_type(), &lex.uint_type() };
          if (t > 10) throw vh::HarnessError("at most 10 built-in types");
          for (int k = 0; k < nn; ++k) names.push_back(&lex.get_identifier(vh::u8("n" + std::to_string(k))));
          for (int k = 0; k < t; ++k) names.push_back(&builtins[k]->name());
@@ -44,7 +45,11 @@ namespace {
          for (int k = 0; k < t; ++k) types.push_back(&lex.get_forall(lex.get_product(one), *builtins[k]));
          enumeration = lex.make_enum(*unit.global_region(), ipr::Enum::Kind::Scoped);
          types.push_back(enumeration);
-         for (int k = 0; k < t; ++k) inits.push_back(lex.make_literal(*builtins[k], u8"0"));
+         for (int k = 0; k < t; ++k) {
+            if (builtins[k] == &lex.class_type()) inits.push_back(lex.make_class(*unit.global_region()));
+            else if (builtins[k] == &lex.namespace_type()) inits.push_back(lex.make_namespace(*unit.global_region()));
+            else inits.push_back(lex.make_literal(*builtins[k], u8"0"));
+         }
          klass = lex.make_class(*unit.global_region());
          derived = lex.make_class(*unit.global_region());
          mapping = lex.make_mapping(*unit.global_region(), ipr::Mapping_level{0});
@@ -134,9 +139,18 @@ namespace {
 #undef TRY
          throw vh::HarnessError("declaration without settable specifiers");
       }
+      // what a template declaration answers for its primary template when first observed; it must go on answering that
+      mutable std::map<const ipr::Decl*, const ipr::Template*> first_primary;
       long spec_value(const ipr::Decl& d) const
       {
          long v = 0;
+         if (auto t = dynamic_cast<const ipr::Template*>(&d)) {
+            const ipr::Template* p = nullptr;
+            try { p = &t->primary_template(); } catch (const std::logic_error&) { }
+            auto it = first_primary.find(&d);
+            if (it == first_primary.end()) first_primary[&d] = p;
+            else if (it->second != p) v |= 128;            // the answer changed
+         }
          auto sp = d.specifiers();
          for (int b = 0; b < 3; ++b) if (ipr::implies(sp, spec_menu(b))) v |= 1 << b;
          if ((sp ^ (((v & 1) ? spec_menu(0) : ipr::Specifiers{}) | ((v & 2) ? spec_menu(1) : ipr::Specifiers{}) | ((v & 4) ? spec_menu(2) : ipr::Specifiers{})))
